@@ -130,3 +130,15 @@ def add_task(engine, out, thunk):
         out.extend(t)
     else:
         out.append(t)
+
+
+def bind_positional(env, fi, values, published=None):
+    """bind the symbolic arguments to the function's parameters BY POSITION (what a caller does), so that a
+    parameter renamed in the source is still bound; `published` names are bound as well when they differ, so
+    that specs written against the published names keep reading the same values"""
+    pos = fi.params()[0]
+    for k, v in enumerate(values):
+        if k < len(pos):
+            env.vars[pos[k]] = v
+        if published and k < len(published):
+            env.vars.setdefault(published[k], v)
